@@ -24,7 +24,7 @@ VARIABLES l, cnt, curop, taint, rejoined, conf, used
 tvars == <<l, cnt, curop, taint, rejoined, conf, used>>
 E == Rec[l]
 
-Zero == [forward |-> 0, copy |-> 0, ack |-> 0, fanout |-> 0]
+Zero == [forward |-> 0, copy |-> 0, ack |-> 0, fanout |-> 0, cfwd |-> 0, ccopy |-> 0]   \* cfwd / ccopy: of these, lines that carry a $conflicts_ record
 
 Alive(S) == {n \in DOMAIN S : S[n].alive}
 Primaries(S) == {n \in Alive(S) : S[n].role = "Primary"}
@@ -94,11 +94,14 @@ Client ==
   /\ curop' = E.op
   /\ UNCHANGED <<cnt, taint, rejoined, conf, used>>
 
+IsConflictLine == "conflict" \in DOMAIN E /\ E.conflict
 Msg ==
   /\ E.ev = "msg"
   /\ cnt' = [cnt EXCEPT ![IF E.kind \in {"forward", "copy", "ack"} THEN E.kind ELSE "fanout"] =
                  IF E.kind \in {"forward", "copy", "ack"} THEN @ + 1
-                 ELSE IF E.kind = "copy_by_secondary" THEN @ + 1 ELSE @]
+                 ELSE IF E.kind = "copy_by_secondary" THEN @ + 1 ELSE @,
+                          !.cfwd = IF E.kind = "forward" /\ IsConflictLine THEN @ + 1 ELSE @,
+                          !.ccopy = IF E.kind = "copy" /\ IsConflictLine THEN @ + 1 ELSE @]
   /\ UNCHANGED <<curop, taint, rejoined, conf, used>>
 
 QuiesceOK ==
@@ -197,6 +200,25 @@ Dev_ElectionWrongPrimary ==
   ElectStep("Dev_ElectionWrongPrimary",
             AllSettled(E.state) /\ OnePrimary(E.state) /\ ~OldestIsPrimary(E.state))
 
+(* C14: on an arbiter database a write issued on the secondary the arbiter is attached to, when it    *)
+(* raises a conflict there (a stale version; or -- F20 -- the copy of the node's own accepted write     *)
+(* coming back from the primary), sends the conflict record as a second line: one more forward and,    *)
+(* when the primary accepts it, one more copy per secondary.  Still required: exactly one such extra    *)
+(* line, the write itself within the bound, every copy acknowledged at most once, silence afterwards.   *)
+Dev_ArbiterConflictSecondLine ==
+  /\ "Dev_ArbiterConflictSecondLine" \in Devs
+  /\ E.ev = "quiesce" /\ E.quiet /\ On("BUDGET")
+  /\ curop.op \in {"set", "set-safe"} /\ curop.at_secondary
+  /\ Budget(E.state, cnt) = FALSE
+  /\ (\E n \in Alive(E.state) : curop.d \in DOMAIN E.state[n].data /\ E.state[n].data[curop.d].strategy = "arbiter") = TRUE
+  /\ LET secs == Cardinality(Alive(E.state)) - 1 IN
+       (/\ cnt.cfwd = 1 /\ cnt.forward - cnt.cfwd <= 1
+        /\ cnt.ccopy <= secs /\ cnt.copy - cnt.ccopy <= secs
+        /\ cnt.ack <= cnt.copy /\ cnt.fanout = 0) = TRUE
+  /\ (On("CONV") => Converged(E.state)) = TRUE
+  /\ cnt' = Zero /\ UNCHANGED <<curop, taint, rejoined, conf>>
+  /\ used' = used \cup {"Dev_ArbiterConflictSecondLine"}
+
 (* C13/C14: `resolve' never quiesces on a cluster: the primary broadcasts it, every      *)
 (* secondary forwards it back to the primary, which broadcasts it again                 *)
 Dev_ResolvePingPong ==
@@ -208,7 +230,7 @@ Dev_ResolvePingPong ==
 
 TraceNext == l <= Len(Rec) /\ l' = l + 1 /\
              (Reset \/ Formed \/ Client \/ Msg \/ QuiesceOK \/ Dev_RemoveOnSecondaryLocalOnly
-              \/ Dev_SecondaryWriteAppliedLocally \/ Dev_ResolvePingPong
+              \/ Dev_SecondaryWriteAppliedLocally \/ Dev_ResolvePingPong \/ Dev_ArbiterConflictSecondLine
               \/ Dev_ElectionStaleView \/ Dev_ElectionNoPrimary \/ Dev_ElectionWrongPrimary
               \/ Restarted \/ Dev_ResyncDiverges \/ Dev_SelfSyncPanic)
 TraceSpec == TraceInit /\ [][TraceNext]_tvars
